@@ -153,11 +153,21 @@ pub assume_specification<T, A: std::alloc::Allocator>[ <std::vec::Vec<T, A> as s
     ensures r@ == v@;
 pub assume_specification<T, A: std::alloc::Allocator>[ <std::vec::Vec<T, A> as std::convert::AsMut<[T]>>::as_mut ](v: &mut std::vec::Vec<T, A>) -> (r: &mut [T])
     ensures r@ == old(v)@, final(r)@ == final(v)@;
-// the AsRef trait itself (generic callers): callable, result unspecified (TRUSTED only in that it does not panic)
+// the AsRef trait itself (generic callers).  TRUSTED: `as_ref` is a function of the value -- the bytes a value converts to
+// are determined by the value (`as_ref_bytes`), so "same salt" means "same bytes"
+pub mod axr {
+use vstd::prelude::*;
+pub uninterp spec fn as_ref_rel<S: core::marker::PointeeSized, T: core::marker::PointeeSized>(s: &S, r: &T) -> bool;
+pub uninterp spec fn as_ref_bytes<S: core::marker::PointeeSized>(s: &S) -> Seq<u8>;
+pub broadcast axiom fn axiom_as_ref_bytes<S: core::marker::PointeeSized>(s: &S, r: &[u8])
+    ensures #[trigger] as_ref_rel::<S, [u8]>(s, r) ==> r@ == as_ref_bytes(s);
+}
+pub use axr::{as_ref_rel, as_ref_bytes};
 #[verifier::external_trait_specification]
 pub trait ExAsRef<T: core::marker::PointeeSized>: core::marker::PointeeSized {
     type ExternalTraitSpecificationFor: core::convert::AsRef<T> + core::marker::PointeeSized;
-    fn as_ref(&self) -> (r: &T);
+    fn as_ref(&self) -> (r: &T)
+        ensures as_ref_rel(self, r);
 }
 pub assume_specification<T: Default>[ core::mem::take::<T> ](dest: &mut T) -> (r: T)
     ensures r == *old(dest), call_ensures(T::default, (), *final(dest));
